@@ -137,7 +137,8 @@ func addRandom(scs []Scenario, n, k int, seed int64) []Scenario {
 	sort.Strings(labs)
 	rng := rand.New(rand.NewSource(seed ^ 0x5eed))
 	for i := 0; i < n; i++ {
-		sc := Scenario{Mode: "seq", Cfg: "listen"}
+		// in either configuration of the handler table
+		sc := Scenario{Mode: "seq", Cfg: []string{"listen", "zero"}[rng.Intn(2)]}
 		for j := 0; j < k; j++ {
 			l := labs[rng.Intn(len(labs))]
 			sc.Items = append(sc.Items, Item{Lab: l, Who: "peer", Node: alpha[l]})
@@ -545,7 +546,7 @@ func supervise(alphabet, tracePath string, files []string) {
 		if sc.Mode == "reply" {
 			napp = 1
 		}
-		tw.Write(vt.Ev{"mode": sc.Mode, "n": len(sc.Items), "napp": napp}, res.Events)
+		tw.Write(vt.Ev{"mode": sc.Mode, "cfg": sc.Cfg, "n": len(sc.Items), "napp": napp}, res.Events)
 		tw.Meta(map[string]interface{}{"scenario": sc, "labels": labs, "detail": res.Detail, "bad": res.Bad})
 		for _, e := range res.Events {
 			if o, ok := e["out"].(string); ok {
